@@ -312,7 +312,11 @@ mutual
 def eqNC : Node → Cst → Bool
   | .nil, o => o.isNullLit
   | .nilAry, o => o.isNullLit
-  | .docNil, _ => false
+  | .docNil, o =>
+    -- a `partialDoc` with a nil map: `len(nil map) == len(o's map)` and an empty loop
+    (match o with
+     | .obj os => uniqueCount os == 0
+     | _ => false)
   | .raw c, o => eqCC c o
   | .doc _ obj, o =>
     (match o with
